@@ -11,6 +11,23 @@ SPIDEV = "adafruit_bus_device.SPIDevice / digitalio.DigitalInOut: assumed to fra
 NOT_APPLICABLE = {}
 
 PROPERTIES = {
+    "C15": {
+        "level_text": "is_address_valid is proved equal to the reference validity predicate for EVERY integer and None. update() of routing-only/network nodes (= _net_update with both handlers, _write, _write_to_pipe, _tx_standby: the C07 contracts with raises=()), of mesh nodes and of the mesh master (six cases covering every reported type, with _dhcp and the lookup/release replies inlined) is proved to return normally for ANY RX FIFO content -- every subscript, struct call, bytes() and sleep is a fork to a raise-path that the contract forbids; malformed frames are proved dropped without queueing or transmitting; a reported message type is proved to belong to a validated frame still held in frame_buf.",
+        "level_note": "Relative to A-HW/A-RX-FIN/A-CLK; 'bounded time' is argued (each loop turn performs >= 1 SPI frame, timeouts are finite) but not mechanised; RF24 callees by reference/contract (C02/C03/C08/C10), queue abstracted (C12 shows enqueue never raises); mesh lease table sizes 0..2 (0 for the address-request case; 0..1 thorough) in the quick tier.",
+        "modules": ["spec.c15", "spec.c07", "spec.mesh"],
+        "level": "proof",
+        "trusted_base": [ENGINE, A_HW, "A-RX-FIN", "A-CLK (termination argued)", "C02 send/resend contract as oracle abstraction", "C03/C08/C10/C04/C11 reference functions for callees", "AbsQueue abstraction of the frame queue",
+                         "A-LE: native struct formats 'HH'/'HHHBB' are little-endian and unpadded on this host"],
+        "assumptions": [A_HW, "A-RX-FIN", "A-CLK", "A-LE", "lease table size bounded in the mesh-master cases (stated above)", "dynamic payloads stay enabled"],
+    },
+    "C16": {
+        "level_text": "_dhcp is proved (table sizes 0..1 quick / 0..3 thorough, symbolic IDs, addresses, requester and relay) to keep D -- values valid, non-zero, not 0o4444, pairwise distinct -- and to grant only a direct child of the node the request arrived through that is leased to no other ID, replying exactly once-or-twice with type 128, reserved = the requester's ID, the little-endian address, to the relay (TX_NORMAL) or directly (TX_PHYSICAL); set_address, release_address and _get_address are proved against the mapping view; update() is proved to change the table only for requests and releases; the binary save format and load (into empty AND into changed tables) are proved to reproduce the leases and keep D.",
+        "level_note": "Table size is bounded (case split) -- bounded in that one dimension; the JSON format rests on the assumed json/file round-trip and is not checked; requests relayed through level-4 nodes are outside the statement.",
+        "modules": ["spec.mesh"],
+        "level": "proof",
+        "trusted_base": [ENGINE, "lease-table size bounded by case split (_dhcp: 0..1 quick, 0..3 thorough; other operations 0..3)", "C07._write contract as abstraction (records the reply)", "ghost file system for open()/write()/read()"],
+        "assumptions": ["table sizes bounded as stated", "json.dumps/json.load and the file system round-trip dict[int,int] (JSON format not verified)", "A-LE"],
+    },
     "C07": {
         "level_text": "For _begin, _tx_standby, _write_to_pipe, _write, _net_update (with both frame handlers), update(), multicast(), RF24Network.write(), the multicast_level and node_address setters it is proved that from a listening node (registers: PWR_UP/PRIM_RX/CE, six pipes open on the node's own addresses with pipe 0 on its level address, EN_AA = 0x3E, dynamic payloads) the node is listening again on EVERY return path -- success, failed transmission, standby timeout, NETWORK_ACK timeout, fragment abort, loop-back, forwarding -- for every received payload, every oracle outcome of every transmission and every address. Waiting/fragment/receive loops carry inductive invariants (arbitrary iteration from an arbitrary invariant state) with mechanically checked havoc footprints; _write <-> _net_update recursion is by contract.",
         "level_note": "Relative to A-HW; the RF24 calls are replaced by their C03/C08/C10 reference functions and by C02's send/resend contract with oracle outcomes; the frame queue is abstracted (accept/refuse oracle); termination of the waiting loops is argued from A-CLK (not mechanised); mesh entry points are covered when C17 is claimed; the user is assumed not to switch off dynamic payloads through the mixin and not to assign a reserved multicast address as node_address.",
